@@ -121,6 +121,11 @@ Spec == Init /\ [][Next]_vars
 ObsOf(v) == [a \in Accts |-> [n \in Names |-> [src |-> v[a][n].src, inst |-> v[a][n].inst,
                                               borrow |-> Borrowable(v, a, n, {})]]]
 
+\* what names / get / borrow answer INSIDE the running transaction, through the signers' own account
+\* references (the in-transaction view: every earlier call of the transaction is visible, a contract
+\* added by it has no value yet). The replay re-reads it after Begin and after every call.
+TxView == [a \in Accts |-> [n \in Names |-> [src |-> cur[a][n].src, borrow |-> Borrowable(cur, a, n, added)]]]
+
 \* ---------------------------------------------------------------- properties of the design
 TypeOK == /\ \A a \in Accts, n \in Names :
                 /\ cur[a][n].src \in Srcs \cup {"none"} /\ com[a][n].src \in Srcs \cup {"none"}
